@@ -14,6 +14,7 @@ OTHER_SIDE = {Pair.NS: Pair.EW, Pair.EW: Pair.NS}
 FORMAL = {N: 'North', E: 'East', S: 'South', W: 'West'}
 SEAT_LETTER = {N: 'N', E: 'E', S: 'S', W: 'W'}
 SEAT_NO = {N: 0, E: 1, S: 2, W: 3}
+SEAT_OF_LETTER = {'N': N, 'E': E, 'S': S, 'W': W}
 SEAT_OF_NO = (N, E, S, W)
 
 
